@@ -122,7 +122,7 @@ def run(ctx):
         res['violations'].append({'signature': 'corr:memcache', 'case': d['mem'][i],
                                   'what': f'C08: MemoryCache(size={d["mem"][i]["size"]}) and Model/Store.v disagree at operation {code} of list {i}'})
     ok_sh = [c for c in d['shards'] if 'keys' in c['res']]
-    sh = lib.write_shards(ctx['pid'], 'shard', ['Values', 'CheckLib', 'MiscGen'], 'shcase', 'check_shard', [lit_shard(c) for c in ok_sh], per=200)
+    sh = lib.write_shards(ctx['pid'], 'shard', ['Values', 'CheckLib', 'ShardGen'], 'shcase', 'check_shard', [lit_shard(c) for c in ok_sh], per=200)
     total2, bad2, errors2 = lib.run_shards(sh)
     for i, code in bad2[:2]:
         res['violations'].append({'signature': 'corr:shard', 'case': ok_sh[i],
